@@ -535,6 +535,44 @@ func caseUNHI() {
 	println("UNHI", out)
 }
 
+// a range loop in which the map is cleared and refilled after the j-th iteration, for every j:
+// entries inserted inside the loop may or may not be produced, but never twice
+func caseDUPCLEAR() {
+	dupLoops, loops := 0, 0
+	for trial := 0; trial < 30; trial++ {
+		n := 60 + trial%40
+		for j := 0; j < n; j++ {
+			m := make(map[int]int)
+			for i := 0; i < n; i++ {
+				m[i*7+trial] = i
+			}
+			seen := map[int]int{}
+			step := 0
+			dup := false
+			for k := range m {
+				if k >= 1000000 {
+					seen[k]++
+					if seen[k] > 1 {
+						dup = true
+					}
+				}
+				if step == j {
+					clear(m)
+					for i := 0; i < 40; i++ {
+						m[1000000+i*13+trial] = i
+					}
+				}
+				step++
+			}
+			loops++
+			if dup {
+				dupLoops++
+			}
+		}
+	}
+	println("DUPCLEAR", loops, dupLoops > 0)
+}
+
 func main() {
 	name := ""
 	if a := argv(); len(a) > 1 {
@@ -581,6 +619,8 @@ func main() {
 		caseUNHV()
 	case "UNHI":
 		caseUNHI()
+	case "DUPCLEAR":
+		caseDUPCLEAR()
 	default:
 		println("unknown case", name)
 	}
